@@ -144,8 +144,7 @@ def binding_selftest(ctx: Ctx) -> None:
             e["body"]["lastSeq"] += 1
             break
     bad2 = json.loads(json.dumps(t))
-    idx = next(i for i, e in enumerate(bad2["events"]) if e["k"] == "Resolve" and e.get("why") == "validate")
-    del bad2["events"][idx]
+    bad2["events"] = [e for e in bad2["events"] if not (e["k"] == "Resolve" and e.get("why") == "validate")]     # no validation read at all
     bad3 = json.loads(json.dumps(t))
     i1 = next(i for i, e in enumerate(bad3["events"]) if e["k"] == "WriteMeta")
     i2 = next(i for i, e in enumerate(bad3["events"]) if e["k"] == "FlipHint")
